@@ -490,7 +490,13 @@ Definition insert_file (pol : Z) (fvbuf : bytes) (aligned : Z) (fb : bytes) : ou
   Ok (fvbuf ++ zrepeat pol (aligned - zlen fvbuf) ++ fb).
 
 (* the file loop of the FirmwareVolume case *)
-Fixpoint place_files (pol : Z) (fvbuf : bytes) (off : Z) (files : list node) : outcome bytes :=
+(* [limit]: Some Length for a non-resizable volume.  The Go code lays all files out and only then
+   reports "out of space"; the buffer only grows, so the model reports it as soon as a file would end
+   beyond the limit, which spares it from materialising multi-megabyte pad files. (The one observable
+   difference: a later zero-length file buffer, which makes the Go code exit via log.Fatalf, is
+   reported as the out-of-space error instead.) *)
+Fixpoint place_files (pol : Z) (limit : option Z) (fvbuf : bytes) (off : Z) (files : list node)
+  : outcome bytes :=
   match files with
   | [] => Ok fvbuf
   | f :: r =>
@@ -499,20 +505,22 @@ Fixpoint place_files (pol : Z) (fvbuf : bytes) (off : Z) (files : list node) : o
     if zlen fb =? 0 then Panic 201 (* log.Fatalf *) else
     let a0 := align8 off in
     let base := attr_align attr in
+    let no :=
+      if base =? 1 then a0 else
+        let hl := file_hlen attr in
+        let fdo := align (a0 + hl) base in
+        let no := fdo - hl in
+        let gap := no - a0 in
+        if (8 <=? gap) && (gap <? 24) then align (fdo + 1) base - hl else no in
+    if (match limit with Some l => l <? no + zlen fb | None => false end) then Err E_NOSPACE else
     do st <-
-      (if base =? 1 then Ok (fvbuf, a0) else
-         let hl := file_hlen attr in
-         let fdo := align (a0 + hl) base in
-         let no := fdo - hl in
-         let gap := no - a0 in
-         let no := if (8 <=? gap) && (gap <? 24) then align (fdo + 1) base - hl else no in
-         if no =? a0 then Ok (fvbuf, no) else
-           do pf <- create_pad_file pol (no - a0);
-           do b <- insert_file pol fvbuf a0 pf;
-           Ok (b, no));
+      (if no =? a0 then Ok (fvbuf, no) else
+         do pf <- create_pad_file pol (no - a0);
+         do b <- insert_file pol fvbuf a0 pf;
+         Ok (b, no));
     let '(fvbuf1, a1) := st in
     do b2 <- insert_file pol fvbuf1 a1 fb;
-    place_files pol b2 (a1 + zlen fb) r
+    place_files pol limit b2 (a1 + zlen fb) r
   end.
 
 Definition asm_vol (pol : Z) (ffs3 : bool) (h : volhdr) (buf : bytes) (files : list node)
@@ -522,8 +530,9 @@ Definition asm_vol (pol : Z) (ffs3 : bool) (h : volhdr) (buf : bytes) (files : l
   | _ =>
     if v_length h <? zlen buf then Err E_BUFBIG else
     match v_blocks h with [] => Err E_BLOCK0 | _ =>
+    if v_dataoff h <? v_hdrlen h then Err E_BUFBIG else
     do hdr <- of_opt 202 (slice 0 (v_dataoff h) buf);
-    do b1 <- place_files pol hdr (v_dataoff h) files;
+    do b1 <- place_files pol (if v_resizable h then None else Some (v_length h)) hdr (v_dataoff h) files;
     let newlen := zlen b1 in
     if (v_length h <? newlen) && negb (v_resizable h) then Err E_NOSPACE else
     do lb <-
